@@ -1,13 +1,13 @@
 package harness
 
 import (
-	"strings"
 	"fmt"
 	"math"
 	"math/rand"
 	"os"
 	"path/filepath"
 	"sort"
+	"strings"
 	"time"
 
 	"github.com/cinar/indicator/v2/asset"
